@@ -1095,7 +1095,8 @@ def classify(r: dict, known: t.Dict[str, dict]) -> t.Dict[str, t.Any]:
                 else:
                     out["viol"].append(ch)
             continue
-        if not ch["impl_eq_model"]:
+        fwd = (not ch["impl_eq_spec"]) and "H_viewCtesAfterOwn" in known and not (ch["scope"] and ch["impl_eq_model"]) and forward_view_reference(r["case"], ch)
+        if not ch["impl_eq_model"] and not fwd:
             out["model_bad"].append(ch)
         if not ch["spec_eq_oracle"]:
             out["oracle_bad"].append(ch)
@@ -1103,9 +1104,108 @@ def classify(r: dict, known: t.Dict[str, dict]) -> t.Dict[str, t.Any]:
             sc = ch["scope"]
             if sc and ch["impl_eq_model"] and all(h in known for h in sc):
                 out["known"].update(sc)
+            elif fwd:
+                out["known"].add("H_viewCtesAfterOwn")
             else:
                 out["viol"].append(ch)
     return out
+
+
+def forward_view_reference(case: dict, ch: dict) -> bool:
+    """the mechanism of H_viewCtesAfterOwn, verified on the real statement (the Lean model reads CTEs by name and has no
+    order, so this finding is accepted by mechanism, not by model prediction): session.sql appends the CTEs of a view
+    AFTER the statement's own CTEs; when an own CTE reads the view and sqlglot's optimizer does not happen to re-order
+    them, the engine refuses the forward reference.  Accepted only if (1) the engine refused with exactly that message,
+    (2) the specification agrees with DuckDB run directly on the user's statement, (3) in the statement sqlframe built
+    (optimize=False) an own CTE really reads a view CTE defined later in the WITH list."""
+    try:
+        err = ch["impl"].get("err", "") if isinstance(ch.get("impl"), dict) else ""
+        if "cannot be referenced from this part of the query" not in err or not ch.get("spec_eq_oracle"):
+            return False
+        ev = case["events"][ch["event"]]
+        if ev.get("ev") != "sql" or not ev["q"].get("ctes"):
+            return False
+        import sqlglot
+        from sqlglot import exp as E
+
+        text = rebuild_statement_text(case, ch["event"])
+        if not text:
+            return False
+        tree = sqlglot.parse_one(text, read="duckdb")
+        names = [c.alias_or_name for c in tree.ctes]
+        for i, c in enumerate(tree.ctes):
+            reads = {t.name for t in c.find_all(E.Table)}
+            if reads & set(names[i + 1:]):
+                return True
+        return False
+    except Exception:
+        return False
+
+
+def _statement_text_inproc(c: dict) -> t.Optional[str]:
+    s = vlib.fresh_duckdb_session()
+    from sqlframe.duckdb import functions as F
+
+    for stmt in ENGINE_SETUP:
+        s._conn.execute(stmt)
+    for n, tb in c.get("tables", {}).items():
+        ddl = ", ".join(f"{c_} {'bigint' if ty == 'int' else 'varchar'}" for c_, ty in tb["schema"])
+        s._conn.execute(f"create table {n} ({ddl})")
+        for r in tb["rows"]:
+            s._conn.execute(f"insert into {n} values ({', '.join('?' for _ in r)})", list(r))
+    frames: t.List[t.Any] = []
+    df = None
+    for ev in c["events"]:
+        k = ev["ev"]
+        if k == "create":
+            df = X.make_df(s, dict(ev["schema"]), ev["rows"])
+        elif k == "register":
+            frames[ev["i"]].createOrReplaceTempView(ev["name"])
+            continue
+        elif k == "table":
+            df = s.table(ev["name"])
+        elif k == "sql":
+            df = s.sql(query_sql(ev["q"]))
+        elif k == "transform":
+            df = op_apply(frames[ev["i"]], ev["op"], F)
+        elif k == "joinBack":
+            df = frames[ev["i"]].join(s.table(ev["name"]), on=ev["on"])
+        frames.append(df)
+    return df.sql(optimize=False, dialect="duckdb") if df is not None else None
+
+
+def statement_text_of_last_sql(c: dict) -> t.Optional[str]:
+    """in a forked child (the parent must not touch DuckDB before it forks workers again)"""
+    import os
+
+    rfd, wfd = os.pipe()
+    pid = os.fork()
+    if pid == 0:
+        try:
+            os.close(rfd)
+            try:
+                txt = _statement_text_inproc(c) or ""
+            except Exception:
+                txt = ""
+            with os.fdopen(wfd, "w") as w:
+                w.write(txt)
+        finally:
+            os._exit(0)
+    os.close(wfd)
+    with os.fdopen(rfd) as r:
+        txt = r.read()
+    os.waitpid(pid, 0)
+    return txt or None
+
+
+def rebuild_statement_text(case: dict, upto: int) -> t.Optional[str]:
+    """run the history again on a fresh session and return the optimize=False text of the event's statement"""
+    try:
+        c2 = copy.deepcopy(case)
+        c2["events"] = c2["events"][: upto + 1]
+        return statement_text_of_last_sql(c2)
+    except Exception:
+        return None
 
 
 # ------------------------------------------------------------------------------------------------
